@@ -7,6 +7,7 @@ from sa.resolve import walk_function
 from sa.report import Renamed
 from rules import C11
 
+TECHNIQUE = 'static analysis (ast): constant / shape rules of the expiry and last-trading-date rules compared as value ids (arithmetic not evaluated), reviewed tables (offset aliases, month codes, listing cycles), class-attribute resolution through the MRO'
 EXPLANATION = (
     "Decides the constant / shape clauses of C19, NOT the calendar arithmetic over all (year, month): (S1) the `freq` class attribute of every concrete built-in "
     "Future (through the MRO) is an alias the installed pandas accepts (frozen table of aliases removed in pandas >= 3, cross-checked against "
